@@ -215,6 +215,30 @@ func invalidate(s *ast.Schema, q string) []invCase {
 	return out
 }
 
+// siblingDocument puts the (single, possibly invalid) operation of q under the name Bad next to a valid
+// operation Good; "" if q does not parse, holds several operations or fragments named like ours.
+func siblingDocument(q string) string {
+	d, err := parser.ParseQuery(&ast.Source{Input: q})
+	if err != nil || len(d.Operations) != 1 {
+		return ""
+	}
+	t := strings.TrimSpace(q)
+	var bad string
+	switch {
+	case strings.HasPrefix(t, "{"):
+		bad = "query Bad " + t
+	case d.Operations[0].Name != "":
+		return ""
+	case strings.HasPrefix(t, "query"):
+		bad = "query Bad" + strings.TrimPrefix(t, "query")
+	case strings.HasPrefix(t, "mutation"):
+		bad = "mutation Bad" + strings.TrimPrefix(t, "mutation")
+	default:
+		return ""
+	}
+	return "query Good { n1s { id } } " + bad
+}
+
 func keyOfField(f *ast.Field) string {
 	if f.Alias != "" {
 		return f.Alias
@@ -286,7 +310,7 @@ func init() {
 		Level: "exploration",
 		Rule: "part 1 (inv): for every valid operation with <=K fields, every single invalidating mutation (20 kinds: unknown field/type condition/argument/directive, wrong literal, undeclared/unused/mistyped variable, " +
 			"required argument removed, scalar with / object without selection, fragment cycle, unknown fragment, duplicate/ambiguous/unknown operation name, a name for an anonymous operation, conflicting response keys, wrong root type, syntax error) at every position; " +
-			"mutants that stay valid are skipped; operation-name mutations are sent after a valid request with the same document text; oracle: no downstream request, errors non-empty, data null, status 200; each invalid operation is also sent as the second and as the first entry of a client batch next to a valid one (answers stay at their positions, the valid one keeps its data, downstream requests only for the valid one). " +
+			"mutants that stay valid are skipped; operation-name mutations are sent after a valid request with the same document text; oracle: no downstream request, errors non-empty, data null, status 200; each invalid operation is also sent as the second and as the first entry of a client batch next to a valid one (answers stay at their positions, the valid one keeps its data, downstream requests only for the valid one), and as the unselected sibling operation of a valid one in the same document (operationName selects the valid one: the document is invalid as a whole). " +
 			"part 2 (err): for every operation with <=K fields, a GraphQL error payload (1 or 2 errors, also two with the same message; unicode message, nested extensions, path, locations; extensions without a `code`; no extensions and no path at all) injected at every downstream call and every position of its batch; " +
 			"oracle: every downstream error is in the client's errors with equal message, extensions and path; non-trivial = invalid-by-validator (part 1) / fault actually hit a sub-request (part 2)",
 		Assumptions: []string{"gqlparser's validator on the merged schema defines 'invalid'", "the in-memory services log every request they receive"},
@@ -387,6 +411,30 @@ func init() {
 							}
 							if ok == nil || ok["data"] == nil || ok["errors"] != nil {
 								sigs = append(sigs, "valid operation next to an invalid one in a batch lost its answer")
+							}
+						}
+						// the defect sits in a *sibling* operation of the one that is selected: the document
+						// as a whole is invalid, nothing of it may be executed
+						if sib := siblingDocument(ic.Q); sib != "" {
+							sc := Case{Q: sib, OpName: "Good"}
+							if invalidForGateway(f.Merged, sc) {
+								f.Fakes.Reset()
+								_, sbody := f.Post(caseBody(sc), "application/json")
+								if len(f.Fakes.Reqs) > 0 || len(f.Fakes.Calls) > 0 {
+									sigs = append(sigs, "a document with an invalid sibling operation caused a downstream request")
+								}
+								var sresp map[string]interface{}
+								if err := json.Unmarshal(sbody, &sresp); err != nil {
+									sigs = append(sigs, "response is not a JSON object")
+								} else {
+									if e, ok := sresp["errors"].([]interface{}); !ok || len(e) == 0 {
+										sigs = append(sigs, "a document with an invalid sibling operation answered without errors")
+									}
+									if d, has := sresp["data"]; !has || d != nil {
+										sigs = append(sigs, "a document with an invalid sibling operation answered with non-null data")
+									}
+								}
+								em.Extra("sibling-documents", 1)
 							}
 						}
 						if len(sigs) > 0 {
